@@ -34,6 +34,7 @@ def iterindices(case, d):
 def iterchunks(case, d):
     n = case['n']
     a = _array(n, d)
+    a.accessmode = 'r+'
     ref = np.arange(n, dtype='int32')
     out = []
     for (c, s, st, en, flag) in case['args']:
@@ -48,6 +49,21 @@ def iterchunks(case, d):
                 bool(np.array_equal(ch, ref[x:y])) for ch, (x, y) in zip(chunks, frames))
             detached = all(type(ch) is np.ndarray and ch.flags.owndata for ch in chunks)
             cat = [int(v) for v in np.concatenate(chunks)] if chunks else []
+            # "copies of a[frame]" means a[frame] AS IT IS when the chunk is yielded: write into the
+            # frames not yet yielded while the generator is suspended
+            if len(frames) >= 2 and a.accessmode == 'r+':
+                cur = ref.copy()
+                g = a.iterchunks(c, stepsize=s, startindex=st, endindex=en, include_remainder=flag)
+                for k, (x, y) in enumerate(frames):
+                    ch = next(g)
+                    if not np.array_equal(ch, cur[x:y]):
+                        same = False
+                    if k + 1 < len(frames):
+                        x2, y2 = frames[k + 1]
+                        a[x2:y2] = -(k + 1)
+                        cur[x2:y2] = -(k + 1)
+                g.close()
+                a[:] = ref
             return dict(frames=frames, same=same, detached=detached, cat=cat,
                         closed=a._memmap is None and a._valuesfd is None)
         out.append(guarded(f)[:2])
